@@ -180,12 +180,13 @@ POOL_C2 = POOL + C2 * 3
 BOUNDARY = [2 ** j + d for j in range(3, 13) for d in (-1, 0, 1)]
 
 
-def adv_string(rng, maxlen=10, c2=0.15, big=False):
+def adv_string(rng, maxlen=10, c2=0.15, big=0.0):
     """c2: probability that characters of the U+0080..U+00BF class (defect #16) may occur;
-    big: also produce runs with a special character at a boundary offset (up to 4097) from the start / the previous special"""
+    big: share (of the 15 % long-run cases) of runs with a special character at a boundary offset (up to 4097) from the
+    start / the previous special; 0 = none"""
     pool = POOL_C2 if rng.random() < c2 else POOL
     r = rng.random()
-    if big and r < 0.15 and rng.random() < 0.4:
+    if big and r < 0.15 and rng.random() < big:
         fill = rng.choice(["a", "a", "a", "x", " ", "é", "€"])
         sp = ["&", "<", ">", '"', "\u00a0", "\u00c0"] + (["\u00a9", "\u0080"] if pool is POOL_C2 else [])
         out = []
@@ -517,7 +518,7 @@ def run(ck):
         for c in ASCII + C2 + [" "]:
             strings += [(0, c), (1, c), (0, "a" + c + "b"), (1, c + c)]
         for _ in range(ns_):
-            strings.append((rng.randrange(2), adv_string(rng, 12, big=True)))
+            strings.append((rng.randrange(2), adv_string(rng, 12, big=(0.4 if ck.quick else 0.05))))   # about 2400 / 9000 such strings
         vtrees = [(rng.randrange(2), vocab_tree(rng, vocab, rng.choice([1, 2, 3, 4]))) for _ in range(nv)]
         atrees = [(rng.randrange(2), ("E", rng.choice(["h", "s", "m"]), rng.choice(ANY_NAMES[6:]), [],
                                      [any_tree(rng, 3, c2) for _ in range(rng.choice([1, 2, 3]))]))
